@@ -17,6 +17,7 @@ import ClairModel.Proofs.IndexerFF
 import ClairModel.Proofs.IndexerHist
 import ClairModel.Proofs.ScanPar
 import ClairModel.Proofs.IndexerExt
+import ClairModel.Proofs.RunClock
 import ClairModel.Gen.Controller
 
 -- every variable of a property statement is bound explicitly: a misspelt name is an error, not a new variable
@@ -212,6 +213,45 @@ theorem new_failure_is_clean (i : NewIn) (h : (newLib i).ok = false) :
     ((newLib i).registered = true → i.locker = true ∧ i.store = true ∧ i.arena = true ∧ i.client = true ∧
       ∀ k, i.ctorErr = some k → i.nctor ≤ k) :=
   newLib_failed i h
+
+/-! ## The retry branch of `run` and its clock -/
+
+/-- `controller.run` over ANY table of state functions (Model/RunClock: each
+    call returns what a script says — any next state with any error class, the
+    context cancelled during the call or during the wait, SetIndexReport
+    failing): the retry branch waits at most once per DeadlineExceeded-class
+    result, the first wait of a run lasts zero, every later one lasts `jitter()`
+    (1 to 5 seconds). -/
+theorem retry_waits (fuel : Nat) (script : List RunClock.Iter) :
+    let ws := RunClock.waits (RunClock.run fuel script {}).1
+    (ws = [] ∨ ∃ n, ws = false :: List.replicate n true) ∧ ws.length ≤ RunClock.dlCount script :=
+  RunClock.run_waits fuel script {}
+
+/-- With a table whose error returns all go to Terminal — the in-tree table,
+    `gen_error_returns_terminal` — `run` never sleeps: it waits at most once,
+    for a zero duration, and leaves the loop (which is why a DeadlineExceeded
+    result is never retried: finding deadline-swallowed). -/
+theorem retry_never_sleeps (fuel : Nat) (script : List RunClock.Iter)
+    (h : ∀ it, it ∈ script → it.err ≠ none → it.next = .terminal) :
+    RunClock.waits (RunClock.run fuel script {}).1 = [] ∨ RunClock.waits (RunClock.run fuel script {}).1 = [false] := by
+  have h1 := (RunClock.run_waits fuel script {}).1
+  have h2 := RunClock.run_terminal_errors fuel script {} h
+  rcases h1 with h1 | ⟨n, h1⟩
+  · exact Or.inl h1
+  · right
+    rw [h1] at h2 ⊢
+    cases n with
+    | zero => rfl
+    | succ k => simp [List.replicate] at h2
+
+/-- The finding in the loop itself: a state function returns (Terminal,
+    DeadlineExceeded) on a live context — `run` persists the report, waits zero,
+    clears the error and returns nil with a report that carries no error. -/
+theorem run_swallows_deadline_counterexample :
+    RunClock.run 3 [{ next := .terminal, err := some .dl }] {} =
+      ([.call .checkManifest, .persist none false false true, .wait false],
+       { cur := .checkManifest, jit := true }, none) := by
+  decide
 
 /-! ## Retry -/
 
